@@ -10,14 +10,8 @@ there is an enumeration `w` of all its operations, each exactly once, such that 
 before another was invoked before the other returned (real-time order is respected), and the
 sequential specification executed in this order gives exactly the recorded answers. -/
 def Linearizable (ops : Array HOp) : Prop :=
-  ∃ w : List Nat, w.length = ops.size ∧ (∀ i ∈ w, i < ops.size) ∧ w.Nodup ∧
+  ∃ w : List Nat, w.Perm (List.range ops.size) ∧
     (w.map (pick ops)).Pairwise (fun a b => a.inv < b.ret) ∧ runSeq seqInit (w.map (pick ops)) = true
-
-theorem nodupB_sound : ∀ (w : List Nat), nodupB w = true → w.Nodup
-  | [], _ => List.nodup_nil
-  | x :: xs, h => by
-    simp only [nodupB, Bool.and_eq_true, Bool.not_eq_true', List.contains_eq_mem, decide_eq_false_iff_not] at h
-    exact List.nodup_cons.mpr ⟨h.1, nodupB_sound xs h.2⟩
 
 theorem realTimeFrom_sound : ∀ (l : List HOp) (b : Nat), realTimeFrom b l = true →
     (∀ o ∈ l, b ≤ o.ret) ∧ l.Pairwise (fun a c => a.inv < c.ret)
@@ -33,23 +27,44 @@ theorem realTimeFrom_sound : ∀ (l : List HOp) (b : Nat), realTimeFrom b l = tr
     · intro x hx
       have := h1 x hx; omega
 
-theorem validate_sound (ops : Array HOp) (w : List Nat) (h : validate ops w = true) : Linearizable ops := by
-  simp only [validate, Bool.and_eq_true, beq_iff_eq, List.all_eq_true, decide_eq_true_eq] at h
-  obtain ⟨⟨⟨⟨h1, h2⟩, h3⟩, h4⟩, h5⟩ := h
-  exact ⟨w, h1, h2, nodupB_sound w h3, (realTimeFrom_sound _ 0 h4).2, h5⟩
+theorem realTimeFrom_complete : ∀ (l : List HOp) (b : Nat), (∀ o ∈ l, b ≤ o.ret) →
+    l.Pairwise (fun a c => a.inv < c.ret) → realTimeFrom b l = true
+  | [], _, _, _ => rfl
+  | o :: rest, b, hb, hp => by
+    rw [List.pairwise_cons] at hp
+    simp only [realTimeFrom, Bool.and_eq_true, decide_eq_true_eq]
+    refine ⟨hb o (List.mem_cons_self ..), realTimeFrom_complete rest _ ?_ hp.2⟩
+    intro x hx
+    have h1 := hb x (List.mem_cons_of_mem _ hx)
+    have h2 := hp.1 x hx
+    omega
 
-/-- **Soundness of the checker**: whatever the (unverified) search proposes, a history is accepted
-only if it is linearizable. -/
-theorem decideHist_sound (h : List HOp) (budget : Nat) (hacc : decideHist h budget = .accept) :
+/-- The validator decides exactly "`w` is a linearisation". -/
+theorem validate_iff (ops : Array HOp) (w : List Nat) :
+    validate ops w = true ↔ w.Perm (List.range ops.size) ∧
+      (w.map (pick ops)).Pairwise (fun a b => a.inv < b.ret) ∧ runSeq seqInit (w.map (pick ops)) = true := by
+  simp only [validate, Bool.and_eq_true, List.isPerm_iff]
+  constructor
+  · rintro ⟨⟨h1, h2⟩, h3⟩
+    exact ⟨h1, (realTimeFrom_sound _ 0 h2).2, h3⟩
+  · rintro ⟨h1, h2, h3⟩
+    exact ⟨⟨h1, realTimeFrom_complete _ 0 (fun _ _ => Nat.zero_le _) h2⟩, h3⟩
+
+theorem validate_sound (ops : Array HOp) (w : List Nat) (h : validate ops w = true) : Linearizable ops :=
+  ⟨w, (validate_iff ops w).mp h⟩
+
+/-- **Soundness of the checker**: a history is accepted only if it is linearizable. -/
+theorem decideHist_sound (h : List HOp) (budget : Option Nat) (hacc : decideHist h budget = .accept) :
     Linearizable h.toArray := by
   unfold decideHist at hacc
+  simp only at hacc
   split at hacc
   · cases hacc
-  · simp only at hacc
-    split at hacc
+  · split at hacc
     · split at hacc
       · rename_i hv; exact validate_sound _ _ hv
       · cases hacc
-    · split at hacc <;> cases hacc
+    · cases hacc
+    · cases hacc
 
 end Hive.KV.Lin
